@@ -53,12 +53,17 @@ RULES = {
     "numpy routine that changes the number of dimensions for some inputs (ascontiguousarray / asfortranarray / atleast_nd turn a "
     "0-d array into shape (1,); squeeze, ravel, flatten, expand_dims) unless a reshape to the declared shape is the last step - "
     "a scalar tensor would report shape () and hand out an array of shape (1,)",
+    "R16": "typed storage is reinterpreted, never recomputed: in numpy() / __array__ / tobytes() / tofile() / _load() of every tensor class, and in the "
+    "private helpers of the same module that are handed the array, no + - * / ** is applied to an array of element data or to a complex "
+    "literal - `array[0::2] + 1j * array[1::2]` instead of `array.view(np.complex64)` gives NaN real parts for infinite or NaN imaginary "
+    "components and loses the sign of -0.0, so the proto-backed tensor disagrees with its own bytes and the reference decoder (bit "
+    "operations - shifts, masks - are packing and are covered by R3/R4/R6)",
     "R15": "every array that a Tensor stores has been given its ml_dtypes view: in Tensor.__init__ the statement that turns a numpy "
     "scalar (or another array-like) into an array (`value = np.array(value)` / `np.asarray`) comes before the statement that applies "
     "`_maybe_view_np_array_with_ml_dtypes` - as an alternative arm of it (`elif isinstance(value, np.generic)`) or after it, the "
     "0-d array keeps its carrier type (uint16 / uint8 / int8) and numpy() returns bit patterns instead of bfloat16 / float8 / int4 values",
 }
-FLOORS = {"R1": 120, "R2": 4, "R3": 8, "R4": 1, "R5": 6, "R6": 20, "R7": 30, "R8": 4, "R9": 2, "R10": 1, "R11": 1, "R12": 3, "R13": 1, "R14": 8, "R15": 1}
+FLOORS = {"R1": 120, "R2": 4, "R3": 8, "R4": 1, "R5": 6, "R6": 20, "R7": 30, "R8": 4, "R9": 2, "R10": 1, "R11": 1, "R12": 3, "R13": 1, "R14": 8, "R15": 1, "R16": 12}
 EXPLANATION = (
     "Evaluates the enum and table literals of _enums/_core/tensor_adapters with ast only and compares them with "
     "each other; derives the sub-byte classes from _BITWIDTH_MAP and checks every storage guard, packing-helper "
@@ -852,7 +857,7 @@ def rule_r8(ctx):
     ctx.require(len(sites) >= 4, f"only {len(sites)} position arguments found in ExternalTensor.tofile")
 
 
-def rule_r9(ctx):
+def rule_r9(ctx, rule="R9", consequence=""):
     cls = ctx.repo.cls("onnx_ir._core:ExternalTensor")
     maps, positions = [], []
     for f in ctx.repo.live(cls.methods.values()):
@@ -898,9 +903,9 @@ def rule_r9(ctx):
                     mentions |= {x.id for x in ast.walk(n.value) if isinstance(x, ast.Name)} | {norm(x) for x in ast.walk(n.value) if isinstance(x, ast.Attribute)}
             ok = bool(mentions & base_names) and (f is mf or any(b.startswith(f"{f.params[0]}.") for b in mentions & base_names))
             why = f"the mapping starts at the window base `{norm(moff)}`, so every position must be taken relative to it"
-        ctx.check("R9", f"{f.local}: {label} `{norm(e)}` uses the mapping's coordinate system", ok, f, node,
+        ctx.check(rule, f"{f.local}: {label} `{norm(e)}` uses the mapping's coordinate system", ok, f, node,
                   f"`{norm(e)}` indexes self.raw in a different coordinate system than the mapping ({why}): the bytes read here "
-                  "are not the tensor's bytes (numpy() and tobytes() disagree, or the slice is empty/truncated)",
+                  "are not the tensor's bytes (numpy() and tobytes() disagree, or the slice is empty/truncated)" + consequence,
                   how="mmap base (0 / window offset) vs data dependence of every frombuffer offset and raw slice bound",
                   construct=f"{label} {norm(e)}")
 
@@ -1147,7 +1152,91 @@ def rule_r15(ctx):
     ctx.require(top_index(stores[0]) > iv, "Tensor.__init__: the payload is stored before the ml_dtypes view is applied")
 
 
+_ARRAY_MAKERS = ("array", "asarray", "frombuffer", "fromfile", "memmap", "ascontiguousarray", "empty", "zeros", "fromiter")
+_ARRAY_METHODS = ("view", "astype", "reshape", "ravel", "flatten", "copy", "numpy", "byteswap", "newbyteorder")
+_R16_EXAMPLE = "def numpy(self):\n    array = np.array(self._proto.float_data, dtype=np.float32)\n    return (array[0::2] + 1j * array[1::2]).reshape(shape)\n"
+
+
+def _arrayish(fn_node, e, depth=0) -> bool:
+    """The expression is an array of element data: made by numpy, a view / conversion / slice of one, a parameter declared ndarray,
+    or a local bound to such an expression."""
+    if depth > 4:
+        return False
+    if isinstance(e, ast.Call):
+        d = dotted_of(e.func) or ""
+        if d.startswith(("np.", "numpy.")) and d.split(".")[-1] in _ARRAY_MAKERS:
+            return True
+        if isinstance(e.func, ast.Attribute) and e.func.attr in _ARRAY_METHODS:
+            return _arrayish(fn_node, e.func.value, depth + 1) or e.func.attr in ("view", "astype", "numpy")
+        return False
+    if isinstance(e, ast.Subscript):
+        return _arrayish(fn_node, e.value, depth + 1)
+    if isinstance(e, ast.BinOp):
+        return _arrayish(fn_node, e.left, depth + 1) or _arrayish(fn_node, e.right, depth + 1)
+    if isinstance(e, ast.Name):
+        a = getattr(fn_node, "args", None)
+        if a is not None:
+            for x in a.posonlyargs + a.args + a.kwonlyargs:
+                if x.arg == e.id and x.annotation is not None and "ndarray" in norm(x.annotation):
+                    return True
+        return any(_arrayish(fn_node, v, depth + 1) for v in _defs_of(fn_node, e.id))
+    return False
+
+
+def _value_arithmetic(fn_node):
+    """[BinOp] - arithmetic on element values (+ - * / **; bit operations are packing, not arithmetic) with an array operand or a
+    complex literal."""
+    out = []
+    for n in own_nodes(fn_node):
+        if isinstance(n, ast.BinOp) and isinstance(n.op, (ast.Add, ast.Sub, ast.Mult, ast.Div, ast.Pow, ast.MatMult)):
+            cplx = any(isinstance(x, ast.Constant) and isinstance(x.value, complex) for x in (n.left, n.right))
+            if cplx or _arrayish(fn_node, n.left) or _arrayish(fn_node, n.right):
+                out.append(n)
+    return out
+
+
+def rule_r16(ctx):
+    ex = ast.parse(_R16_EXAMPLE).body[0]
+    from ..index import set_parents
+
+    set_parents(ex)
+    ctx.require(bool(_value_arithmetic(ex)), "R16: the built-in positive example is not recognised")
+    n = 0
+    seen = set()
+    work = []
+    for m in ctx.repo.pkg_modules():
+        for k in m.classes.values():
+            if not any(nm in k.methods for nm in ("numpy", "tobytes")) or "Tensor" not in k.name:
+                continue
+            for name in ("numpy", "__array__", "tobytes", "tofile", "_load"):
+                f = k.methods.get(name)
+                if f is not None and not isinstance(f.node, ast.Lambda):
+                    work.append(f)
+    ty = ctx.typer
+    while work:
+        f = work.pop()
+        if f.key in seen:
+            continue
+        seen.add(f.key)
+        n += 1
+        bad = _value_arithmetic(f.node)
+        ctx.check("R16", f"{f.local}: element data is reinterpreted, not recomputed", not bad, f, bad[0] if bad else f.node,
+                  f"`{norm(bad[0])[:80] if bad else ''}` computes element values with floating arithmetic where the stored components only need to be reinterpreted "
+                  "(view / astype / frombuffer): arithmetic does not keep every bit pattern - `re + 1j * im` turns an infinite or NaN imaginary part into a NaN real part "
+                  "and drops the sign of -0.0 - so numpy() disagrees with the tensor's own bytes and with the reference decoder for those values",
+                  how="BinOp with + - * / ** whose operand is an array (numpy maker, view/astype/slice of one, ndarray parameter, local bound to one) or a complex literal",
+                  construct=f"value arithmetic in {f.local}")
+        # private helpers of the same module that receive the data are decoders too
+        for c in calls_in(f):
+            d = dotted_of(c.func) or ""
+            g = f.module.functions.get(d) if "." not in d else None
+            if g is not None and d.startswith("_") and not isinstance(g.node, ast.Lambda) and any(_arrayish(f.node, a) for a in c.args):
+                work.append(g)
+    ctx.require(n >= 12, f"only {n} decoding methods of tensor classes found")
+
+
 def run(ctx):
+    rule_r16(ctx)
     rule_r15(ctx)
     rule_r14(ctx)
     rule_r13(ctx)
